@@ -5,6 +5,7 @@ import (
 	"encoding/json"
 	"fmt"
 	"os"
+	"strings"
 	"sync"
 	"testing"
 	"testing/synctest"
@@ -614,7 +615,137 @@ func TestC08(t *testing.T) {
 		}
 	}
 
+	// ---- the runtime acting on the controller's behalf: CleanupOutputs of the output tracker may destroy only untouched
+	// resources that THIS controller owns - never one owned by somebody else or by nobody ----
+	if os.Getenv("VERIF_REPLAY") == "" {
+		for _, cached := range []bool{false, true} {
+			for _, touch := range []bool{false, true} {
+				for _, p := range runTrackerCase(t, cached, touch) {
+					rep.violateKey(len(cases), strings.SplitN(p, ":", 2)[0], p, map[string]any{"tracker": map[string]any{"cached": cached, "touch": touch}})
+				}
+
+				rep.count(fmt.Sprint("tracker", cached, touch), true)
+				rep.hit("output_tracker")
+			}
+		}
+	}
+
 	rep.CorrIsSpec = true
 	flush()
 	rep.write(t, dir)
+}
+
+type trackerProbe struct {
+	touch    bool
+	done     chan error
+	cleanErr error
+}
+
+func (p *trackerProbe) Name() string               { return "c1" }
+func (p *trackerProbe) Inputs() []controller.Input { return nil }
+func (p *trackerProbe) Outputs() []controller.Output {
+	return []controller.Output{{Type: "O", Kind: controller.OutputShared}}
+}
+
+func (p *trackerProbe) Run(ctx context.Context, r controller.Runtime, _ *zap.Logger) error {
+	r.StartTrackingOutputs()
+
+	if p.touch {
+		// the controller still wants O/keep: touching it keeps it out of the clean-up
+		if err := r.Modify(ctx, newRes("n1", "O", "keep", ""), func(x resource.Resource) error {
+			x.(*Res).SetPayload("kept") //nolint:forcetypeassert
+
+			return nil
+		}); err != nil {
+			p.done <- err
+
+			return nil
+		}
+	}
+
+	p.cleanErr = r.CleanupOutputs(ctx, resource.NewMetadata("n1", "O", "", resource.VersionUndefined))
+	p.done <- nil
+
+	<-ctx.Done()
+
+	return nil
+}
+
+func runTrackerCase(t *testing.T, cached, touch bool) (problems []string) {
+	synctest.Test(t, func(t *testing.T) {
+		ctx, cancel := context.WithCancel(context.Background())
+		defer cancel()
+
+		st := state.WrapCore(namespaced.NewState(inmem.Build))
+
+		for _, s := range []accSetup{
+			{NS: "n1", Typ: "O", ID: "stale", Owner: "c1"}, {NS: "n1", Typ: "O", ID: "keep", Owner: "c1"},
+			{NS: "n1", Typ: "O", ID: "user"}, {NS: "n1", Typ: "O", ID: "foreign", Owner: "o2"},
+			{NS: "n1", Typ: "O", ID: "userfin", Fins: []string{"f1"}}, {NS: "n2", Typ: "O", ID: "elsewhere", Owner: "c1"},
+		} {
+			r := newRes(s.NS, s.Typ, s.ID, "p0")
+			for _, f := range s.Fins {
+				r.Metadata().Finalizers().Add(f)
+			}
+
+			if err := st.Create(ctx, r, state.WithCreateOwner(s.Owner)); err != nil {
+				t.Fatal(err)
+			}
+		}
+
+		var opts []options.Option
+		if cached {
+			opts = append(opts, options.WithCachedResource("n1", "O"))
+		}
+
+		rt, err := cruntime.NewRuntime(st, zap.NewNop(), opts...)
+		if err != nil {
+			t.Fatal(err)
+		}
+
+		p := &trackerProbe{touch: touch, done: make(chan error, 1)}
+		if err := rt.RegisterController(p); err != nil {
+			t.Fatal(err)
+		}
+
+		done := make(chan error, 1)
+
+		go func() { done <- rt.Run(ctx) }()
+
+		if err := <-p.done; err != nil {
+			t.Fatalf("tracker probe: %v", err)
+		}
+
+		synctest.Wait()
+
+		exists := func(ns, id string) bool {
+			_, err := st.Get(ctx, resource.NewMetadata(ns, "O", id, resource.VersionUndefined))
+
+			return err == nil
+		}
+
+		for _, id := range []string{"user", "foreign", "userfin"} {
+			if !exists("n1", id) {
+				problems = append(problems, fmt.Sprintf("tracker-destroyed-foreign: CleanupOutputs destroyed O/%s, which this controller does not own (cached=%v)", id, cached))
+			}
+		}
+
+		if !exists("n2", "elsewhere") {
+			problems = append(problems, "tracker-destroyed-other-namespace: CleanupOutputs of n1/O destroyed a resource of another namespace")
+		}
+
+		if touch && !exists("n1", "keep") {
+			problems = append(problems, "tracker-destroyed-touched: CleanupOutputs destroyed an output the controller had touched since StartTrackingOutputs")
+		}
+
+		if p.cleanErr == nil && exists("n1", "stale") {
+			problems = append(problems, "tracker-kept-stale: CleanupOutputs returned nil but the controller's untouched output O/stale is still there")
+		}
+
+		cancel()
+		<-done
+		synctest.Wait()
+	})
+
+	return problems
 }
